@@ -41,14 +41,26 @@ fn decode_case(em: &mut Emitter, mode: u8, c: &[u8]) {
                               Constructed::decode(&mut src, mode_of(mode), |cons| BitString::take_from(cons)).ok().map(|b| (b.unused(), b.octet_bytes().to_vec())) };
             let lazy_skip = { let mut src = crate::sources::FlexSource::new(&t, crate::sources::Policy::Exact, None);
                               Constructed::decode(&mut src, mode_of(mode), |cons| BitString::skip_in(cons)).is_ok() };
-            let lazy_same = lazy_take == take.as_ref().map(|b| (b.unused(), b.octet_bytes().to_vec())) && lazy_skip == skip;
+            let mut lazy_same = lazy_take == take.as_ref().map(|b| (b.unused(), b.octet_bytes().to_vec())) && lazy_skip == skip;
+            // where no BIT STRING is next (another tag with the same content, nothing at all, the end of a
+            // SEQUENCE) taking and skipping alike are errors
+            for foreign in [tlv(0x04, c), tlv(0x83, c), vec![], vec![0x05, 0x00]] {
+                let ft = Constructed::decode(foreign.as_slice().into_source(), mode_of(mode), |cons| BitString::take_from(cons)).is_ok();
+                let fs = Constructed::decode(foreign.as_slice().into_source(), mode_of(mode), |cons| BitString::skip_in(cons)).is_ok();
+                if ft || fs { lazy_same = false; }
+            }
+            if mode != 1 {
+                let es = Constructed::decode([0x30u8, 0x00].as_ref().into_source(), mode_of(mode), |cons| cons.take_sequence(|k| BitString::skip_in(k))).is_ok();
+                let et = Constructed::decode([0x30u8, 0x00].as_ref().into_source(), mode_of(mode), |cons| cons.take_sequence(|k| BitString::take_from(k).map(|_| ()))).is_ok();
+                if es || et { lazy_same = false; }
+            }
             (take, skip, ctake, cskip, lazy_same)
         });
         match r {
             Some((take, skip, ctake, cskip, lazy_same)) => {
                 let exp = ref_accept(mode, c);
                 let mut obs = Ints::new();
-                let mut orc = if lazy_same { Oracle::Pass } else { Oracle::Fail("bit-string-codec-depends-on-how-the-source-delivers".into()) };
+                let mut orc = if lazy_same { Oracle::Pass } else { Oracle::Fail("bit-string-take-and-skip-disagree-across-sources-or-accept-where-no-bit-string-is".into()) };
                 match &take {
                     Some(bs) => {
                         let oct = bs.octet_bytes();
